@@ -21,6 +21,7 @@ error must carry the span of a token of the input or of the end of input
 on all of them)."""
 import json
 import os
+import time
 
 import vlib
 import syntax_util as su
@@ -77,47 +78,72 @@ class Run:
                 seen.add(text)
                 yield text, spans
 
-    def process(self, spec_cases, half):
+    def process(self, spec_cases):
         chk = self.chk
         cases, meta = [], []
         for c in spec_cases:
             label = c.get("st") or c.get("kind")
+            c["half"] = "trees" if label in ("min", "red", "unparen") else "mut"
             self.styles[label] = self.styles.get(label, 0) + 1
+            if c["exp"]["d"] == "accept":
+                su.kinds_of(c["exp"]["tree"], self.kinds)
+                c["nontrivial"] = su.depth(c["exp"]["tree"]) >= 3
+            else:
+                c["nontrivial"] = len(c["toks"]) >= 2
+            full = label not in ("min", "red")   # printed trees: canonical text (fast path); else structured tree
             for text, spans in self.variants(c):
-                cases.append({"k": "parse", "src": text})
+                cases.append({"k": "parse", "src": text, "full": full})
                 meta.append((c, spans, label))
         if not cases:
             return
+        t0 = time.time()
         results = run_cases(cases, "c15", timeout_ms=10000)
+        vlib.log(f"[C15] parsed {len(cases)} texts of {len(spec_cases)} cases in {time.time() - t0:.1f}s")
         self.replayed += len(cases)
+        # fast path: the canonical text of the parser's tree equals the specification's
+        redo = []
+        for i, (case, (c, spans, label), r) in enumerate(zip(cases, meta, results)):
+            if "tree" in r and r["tree"] != su.canon(c["exp"]["tree"], spans):
+                redo.append(i)
+        if redo:
+            again = run_cases([dict(cases[i], full=True) for i in redo], "c15_full", timeout_ms=10000)
+            for i, r in zip(redo, again):
+                results[i] = r
         flip = os.environ.get("VERIF_C15_FLIP")
         for case, (c, spans, label), r in zip(cases, meta, results):
             src = case["src"]
+            q = json.dumps(src)
             exp = c["exp"]
             d = exp["d"]
-            etree = su.expected_tree(exp["tree"], spans) if d == "accept" else None
-            if flip and etree is not None and half == "trees" and etree["c"]:
+            half = c["half"]
+            fast_ok = "tree" in r
+            etree = su.expected_tree(exp["tree"], spans) if d == "accept" and not fast_ok else None
+            if flip and d == "accept" and label == "min" and exp["tree"]["c"]:
+                etree = su.expected_tree(exp["tree"], spans)
                 etree["e"] += 1          # binding demonstration: falsify one expected span
+                r = run_cases([dict(case, full=True)], "c15_full", timeout_ms=10000)[0]
+                fast_ok = False
                 flip = None
-            chk.count(key=src, nontrivial=(su.depth(exp["tree"]) >= 3) if d == "accept" else len(c["toks"]) >= 2)
+            chk.count(key=src, nontrivial=c["nontrivial"])
             payload = {"k": "parse", "src": src, "half": half, "case": label, "expected": d,
-                       "expected_tree": su.show(etree) if etree else None, "reject_at_token": exp.get("at")}
+                       "expected_tree": su.canon(exp["tree"], spans) if d == "accept" else None,
+                       "reject_at_token": exp.get("at")}
             base = {"kind": "syntax", "half": half, "case": label}
             if vlib.is_crash(r):
                 self.cls("crash")
-                chk.disagree(dict(base, **{"class": "crash"}), f"parsing `{src}` crashed: {vlib.crash_desc(r)}", payload)
+                chk.disagree(dict(base, **{"class": "crash"}), f"parsing {q} crashed: {vlib.crash_desc(r)}", payload)
                 continue
             err = r.get("err")
             if err is not None and err["stage"] == "lex":
                 self.cls("lex-error")
                 chk.disagree(dict(base, **{"class": "lex-error", "detail": err["kind"]}),
-                             f"`{src}` is a sequence of valid tokens {c['toks']} but the lexer reports {err['kind']} "
+                             f"{q} is a sequence of valid tokens {c['toks']} but the lexer reports {err['kind']} "
                              f"at [{err['start']},{err['end']})", payload)
                 continue
             if [tuple(t) for t in r["tokens"]] != spans or r["eof"] != [len(src), len(src)]:
                 self.cls("token-spans")
                 chk.disagree(dict(base, **{"class": "token-spans"}),
-                             f"`{src}`: tokens {c['toks']} lie at {spans}, end of input at {len(src)}; the lexer reports "
+                             f"{q}: tokens {c['toks']} lie at {spans}, end of input at {len(src)}; the lexer reports "
                              f"{r['tokens']} and {r['eof']}", payload)
                 continue
             if err is not None:
@@ -125,31 +151,35 @@ class Run:
                 self.events.append((err["start"], err["end"], r["tokens"], len(src), src))
                 if not su.located(err["start"], err["end"], [tuple(t) for t in r["tokens"]], len(src)):
                     chk.disagree(dict(base, **{"class": "diagnostic-not-at-token"}),
-                                 f"`{src}`: the syntax error span [{err['start']},{err['end']}) is neither the span of a "
+                                 f"{q}: the syntax error span [{err['start']},{err['end']}) is neither the span of a "
                                  f"token of the input {r['tokens']} nor the end of input", payload)
             if d == "accept":
                 if err is not None:
                     self.cls("valid-rejected")
                     chk.disagree(dict(base, **{"class": "rejects-valid", "instead": err["instead"]}),
-                                 f"`{src}` is the {label} print of a syntax tree ({su.show(su.strip_parens(etree))}) but the "
+                                 f"{q} is the {label} print of a syntax tree ({su.canon(exp['tree'], spans)}) but the "
                                  f"parser rejects it at [{err['start']},{err['end']}): instead={err['instead']} "
                                  f"expected={err['expected']}", payload)
                     continue
+                if fast_ok:
+                    self.cls("accept-agree" if half == "trees" else "mut-accept-agree")
+                    if label not in self.samples:
+                        self.samples[label] = {"src": src, "case": label, "expected": "tree " + r["tree"][:300]}
+                    continue
                 got = r["ast"]
-                su.kinds_of(etree, self.kinds)
                 diff = su.compare(etree, got)
                 if diff is not None and diff[0] == "tool":
-                    raise vlib.ToolError(f"harness/spec tree format mismatch on `{src}`: {diff}")
+                    raise vlib.ToolError(f"harness/spec tree format mismatch on {q}: {diff}")
                 nest = su.nesting_fault(got)
                 if diff is not None:
                     klass = "wrong-tree" if diff[0] == "shape" else "wrong-span"
                     self.cls(klass)
                     chk.disagree(dict(base, **{"class": klass, "node": etree["n"] if diff[1] == "root" else diff[1].split("/")[-1]}),
-                                 f"`{src}` ({label} print): at {diff[1]}: {diff[2]}. specification: {su.show(etree)}; "
+                                 f"{q} ({label} print): at {diff[1]}: {diff[2]}. specification: {su.show(etree)}; "
                                  f"parser: {su.show(got)}", payload)
                 elif nest is not None:
                     self.cls("span-nesting")
-                    chk.disagree(dict(base, **{"class": "span-nesting"}), f"`{src}`: {nest}", payload)
+                    chk.disagree(dict(base, **{"class": "span-nesting"}), f"{q}: {nest}", payload)
                 else:
                     self.cls("accept-agree" if half == "trees" else "mut-accept-agree")
                     if label not in self.samples:
@@ -160,7 +190,7 @@ class Run:
                     self.cls("invalid-accepted")
                     chk.disagree(dict(base, **{"class": "accepts-invalid",
                                                "cause": "greedy-form-ended-early" if cut else "other"}),
-                                 f"`{src}` is not a sentence (the reference parser cannot get past token #{exp['at']} of "
+                                 f"{q} is not a sentence (the reference parser cannot get past token #{exp['at']} of "
                                  f"{c['toks']}) but the parser accepts it as {su.show(r['ast'])}"
                                  + (" - a form that must extend as far right as possible is used as a left operand/target"
                                     if cut else ""), payload)
@@ -182,20 +212,20 @@ class Run:
                         nest = f"root span [{root['s']},{root['e']}) is not first token start .. last token end"
                     if nest is not None:
                         self.cls("span-nesting")
-                        chk.disagree(dict(base, **{"class": "span-nesting"}), f"`{src}`: {nest}", payload)
+                        chk.disagree(dict(base, **{"class": "span-nesting"}), f"{q}: {nest}", payload)
                     else:
                         self.cls("undecided-accepted")
                 else:
                     self.cls("undecided-rejected")
 
-    def stream(self, res, half):
+    def stream(self, res):
         batch = []
         for c in res.lines("CASE"):
             batch.append(c)
             if len(batch) >= BATCH:
-                self.process(batch, half)
+                self.process(batch)
                 batch = []
-        self.process(batch, half)
+        self.process(batch)
 
     def validate_diagnostics(self):
         """Trace_Diag on a seeded sample of the recorded events; TLC and Python must agree."""
@@ -259,14 +289,11 @@ def run(tier, seed):
     run_ = Run(chk, tier, seed)
     to = 3000
     res = run_tlc("MC_Syntax", f"MC_Syntax_{tier}.cfg", "c15_trees", workers=8, seed=seed, timeout=to, coverage=False)
-    tlc_must_pass(res, "Syntax tree laws / emission")
-    chk.add_tlc(res, "tree laws + case emission (2 prints per tree)")
+    tlc_must_pass(res, "Syntax laws / emission")
+    chk.add_tlc(res, "laws on every tree and on the mutants of a seeded sample + case emission")
     ntrees = res.distinct // 2
-    run_.stream(res, "trees")
-    res = run_tlc("MC_Syntax", f"MC_Syntax_mut_{tier}.cfg", "c15_mut", workers=8, seed=seed, timeout=to, coverage=False)
-    tlc_must_pass(res, "Syntax mutation laws / emission")
-    chk.add_tlc(res, "mutated token sequences (round-trip law + emission)")
-    run_.stream(res, "mut")
+    vlib.log(f"[C15] TLC: {ntrees} trees in {res.wall:.0f}s")
+    run_.stream(res)
     run_.validate_diagnostics()
 
     missing = su.ALL_KINDS - run_.kinds
